@@ -121,6 +121,20 @@ type slhWorld struct {
 	// droppedLH: clients whose lighthouse.hosts no longer lists node 0 (configuration truth, not nebula's view)
 	droppedLH map[int]bool
 	statics   []map[netip.Addr][]netip.AddrPort // per node: static host -> configured addresses
+	// marked: the harness's own memory of "a wrong host answered node N's handshake for peer P from address E"
+	// (ground truth: the answering node does not own P). The mark lives as long as the node's address cache object
+	// for P does and no handshake with P completed since.
+	marked   map[slhMarkKey]*slhMark
+	pendingP map[*simNode]map[uint32]netip.Addr // before a delivery: pending handshake index -> dialled peer
+}
+
+type slhMarkKey struct {
+	node *simNode
+	peer netip.Addr
+	addr netip.AddrPort
+}
+type slhMark struct {
+	rl *RemoteList
 }
 
 func (w *slhWorld) fail(prop, class, format string, a ...any) {
@@ -267,6 +281,8 @@ func runSLH(rc *sk.RunCtx, focus string) {
 	rc.Logf("byzantine peer: n%d; allow lists: %v", w.byz, useAllow)
 
 	mw.onWire = func(from *simNode, d *simDatagram) { w.checkDestination(from, d) }
+	w.marked = map[slhMarkKey]*slhMark{}
+	mw.beforeDeliver = func(to *simNode, d *simDatagram) { w.noteHandshakeReply(to, d) }
 	mw.afterEvent = func(name string) {
 		for _, nd := range mw.nodes {
 			if !nd.alive {
@@ -425,6 +441,26 @@ func (w *slhWorld) checkDestination(from *simNode, d *simDatagram) {
 		w.stats["probe.allow_list_evaluations"]++
 	}
 	if stage1 {
+		for _, c := range cands {
+			k := slhMarkKey{from, c[0], d.to}
+			if mk := w.marked[k]; mk != nil {
+				lh := from.f.lightHouse
+				lh.RLock()
+				cur := lh.addrMap[c[0]]
+				lh.RUnlock()
+				established := false
+				if hi := from.f.hostMap.QueryVpnAddr(c[0]); hi != nil && hi.ConnectionState != nil {
+					established = true
+				}
+				if cur != mk.rl || established {
+					delete(w.marked, k) // the cache entry was dropped and rebuilt, or a handshake with the peer completed
+					continue
+				}
+				w.stats["probe.marked_address_checked"]++
+				w.fail("C36", "handshake-to-marked-remote", "node %d sent a handshake for %v to %v: a wrong host answered from that address earlier, no handshake with %v has completed since and the node still holds the same address cache for it", from.idx, c[0], d.to, c[0])
+				return
+			}
+		}
 		hs := from.f.handshakeManager
 		hs.RLock()
 		defer hs.RUnlock()
@@ -437,6 +473,36 @@ func (w *slhWorld) checkDestination(from *simNode, d *simDatagram) {
 			}
 		}
 	}
+}
+
+// noteHandshakeReply runs before every delivery: a handshake reply that answers node N's pending handshake for
+// peer P but was sent by a node that does not own P is "a wrong host answered" — remembered by the harness itself,
+// because the node's own list of such addresses is implementation state that a defect may clear.
+func (w *slhWorld) noteHandshakeReply(to *simNode, d *simDatagram) {
+	var h header.H
+	if err := h.Parse(d.data); err != nil || h.Type != header.Handshake || h.MessageCounter != 2 || d.src < 0 || d.src >= len(w.nodes) {
+		return
+	}
+	hs := to.f.handshakeManager
+	hs.RLock()
+	hh := hs.indexes[h.RemoteIndex]
+	var peer netip.Addr
+	var rl *RemoteList
+	if hh != nil && hh.hostinfo != nil && len(hh.hostinfo.vpnAddrs) > 0 {
+		peer, rl = hh.hostinfo.vpnAddrs[0], hh.hostinfo.remotes
+	}
+	hs.RUnlock()
+	if !peer.IsValid() || rl == nil {
+		return
+	}
+	sender := w.nodes[d.src]
+	for _, p := range sender.spec.nets {
+		if p.Addr() == peer {
+			return // the right host
+		}
+	}
+	w.marked[slhMarkKey{to, peer, d.from}] = &slhMark{rl: rl}
+	w.stats["probe.wrong_host_answers_noted"]++
 }
 
 func firstByte(b []byte) byte {
@@ -759,7 +825,7 @@ func fakeAddrs(tp *sk.Tape, target *simNode) ([]*V4AddrPort, []*V6AddrPort, []ne
 	family := tp.Choose(4)
 	for i := 0; i < k; i++ {
 		var a netip.AddrPort
-		kind := tp.Choose(6)
+		kind := tp.Choose(7)
 		switch family {
 		case 1:
 			kind = 3
@@ -770,6 +836,8 @@ func fakeAddrs(tp *sk.Tape, target *simNode) ([]*V4AddrPort, []*V6AddrPort, []ne
 		case 5: // an IPv4 address dressed as IPv4-mapped IPv6 in the v6 list: the same filters must see through it
 			v4 := [][4]byte{{10, 128, 0, byte(50 + tp.Choose(100))}, {2, 0, 0, byte(200 + tp.Choose(50))}, {192, 168, 7, byte(200 + tp.Choose(50))}}[tp.Choose(3)]
 			a = netip.AddrPortFrom(netip.AddrFrom16([16]byte{0, 0, 0, 0, 0, 0, 0, 0, 0, 0, 0xff, 0xff, v4[0], v4[1], v4[2], v4[3]}), 4242)
+		case 6: // the real underlay address of some node: whoever is dialled there for somebody else answers as itself
+			a = underlayAddr(tp.Choose(5), 0)
 		case 0: // inside the target's overlay range
 			a = netip.AddrPortFrom(netip.AddrFrom4([4]byte{10, 128, 0, byte(50 + tp.Choose(100))}), 4242)
 		case 1:
